@@ -331,7 +331,7 @@ func (e *Exec) concretize(t *Term, why string) uint64 {
 	ref := e.defineTerm(t)
 	e.solver.Send("(push 1)\n")
 	for {
-		res := e.solver.CheckSat(e.prog.cfg.BranchTimeoutMs)
+		res := e.solver.CheckSat(e.prog.cfg.AssertTimeoutMs)
 		e.prog.stats.addQuery()
 		if res == "unsat" {
 			break
@@ -411,7 +411,7 @@ func (e *Exec) assume(c *Term) {
 		e.unsupported("non-constant assume in concrete mode")
 	}
 	// keep the invariant "path condition is satisfiable"
-	res := e.checkWith(c, e.prog.cfg.BranchTimeoutMs)
+	res := e.checkWith(c, e.prog.cfg.AssertTimeoutMs)
 	e.popCheck()
 	if res == "unsat" {
 		panic(&pathEnd{kind: endInfeasible, msg: "assume infeasible"})
